@@ -16,7 +16,7 @@ RULE = ("Bool-typed filters of the Django fragment from the typed grammar (as C0
 ASSUMPTIONS = c01.ASSUMPTIONS + ["Django USE_TZ=True/UTC; date-time literals carry Z or an offset",
                                  "SQLite is the only engine"]
 
-DJ_FUNCS = gen_typed.STRING_FUNCS + ["year", "month", "day", "hour", "minute", "second", "date",
+DJ_FUNCS = gen_typed.STRING_FUNCS + ["year", "month", "day", "hour", "minute", "second", "date", "time",
                                      "round", "floor", "ceiling", "matchesPattern"]
 
 
